@@ -439,12 +439,50 @@ class Translator:
         axioms: 'reciprocal-negates' adds  a*b == 1 => f(a) == -f(b)  (log)."""
         ctx = self.ctx
         nd = []
+        flat = []
         for a in args:
+            if a.is_real():
+                flat.append(a)
+            else:  # a complex argument enters as its real and imaginary part
+                flat += [a.real_part(), a.imag_part()]
+        for a in flat:
             n, den = a.single_real()
             nd.append((to_z3(n), to_z3(a._den_term(den))))
-        key = (name, tuple((n.get_id(), d.get_id()) for n, d in nd))
+        from .core import _dag_size
+
+        keep = ctx.__dict__.setdefault("_keepalive", [])
+
+        def canon(t):  # sum-of-monomials normal form: polynomially equal arguments get the same key
+            if _dag_size(t, 300) < 300:
+                try:
+                    t = z3.simplify(t, som=True, sort_sums=True)
+                except z3.Z3Exception:
+                    pass
+            keep.append(t)
+            return t.get_id()
+
+        key = (name, tuple((canon(n), canon(d)) for n, d in nd))
         apps = ctx.__dict__.setdefault("uf_apps", {})
         hit = apps.get(key)
+        if hit is None and len(apps) < 80:
+            # an existing application whose arguments are equal as fractions (n1*d2 - n2*d1 == 0 identically,
+            # by z3's polynomial normal form) denotes the same value
+            for (n2_, _), (v2, nd2) in apps.items():
+                if n2_ != name or len(nd2) != len(nd):
+                    continue
+                same = True
+                for (a0, a1), (b0, b1) in zip(nd, nd2):
+                    diff = a0 * b1 - b0 * a1
+                    if _dag_size(diff, 600) >= 600:
+                        same = False
+                        break
+                    sd = z3.simplify(diff, som=True)
+                    if not (z3.is_rational_value(sd) and sd.numerator_as_long() == 0):
+                        same = False
+                        break
+                if same:
+                    hit = apps[key] = (v2, nd2)
+                    break
         if hit is None:
             v = ctx.fresh(f"uf[{name}]")
             for (n2, _), (v2, nd2) in apps.items():
